@@ -304,7 +304,8 @@ PROPS["C05"] = dict(
               "BB.Props.C05.error_only_if_cancelled", "BB.Props.C05.no_lost_wakeup", "BB.Props.C05.not_stuck",
               "BB.Props.C05.cancelled_leadsTo_return", "BB.Props.C05.predicate_true_leadsTo_return",
               "BB.Props.C05.watcher_without_lock_loses_wakeup", "BB.Props.C05.mutator_without_broadcast_loses_wakeup",
-              "BB.Props.C05.failed_get_no_advance"],
+              "BB.Props.C05.failed_get_no_advance", "BB.Props.C05.waiting_ignores_values", "BB.Props.C05.get_commutes_with_renaming",
+              "BB.Props.C05.put_commutes_with_renaming", "BB.Props.C05.put_of_any_value_ends_the_wait"],
     corr=[dict(family="waitcond", quick=6, thorough=300, mismatch_is_violation=True, no_shrink=True,
                nontrivial=has("event_between_check_and_park"),
                rule="waitcond (forced schedules, T4): the real WaitCond with {cancel, a mutator that sets the predicate and broadcasts in one critical section, both} "
